@@ -44,7 +44,7 @@ def _check_library(raise_exception=True):
             raise Exception(msg)
 
 
-def distance(s1, s2, inner_dist=innerdistance.default, use_ndim=False):
+def distance(s1, s2, inner_dist=innerdistance.default, use_ndim=False, keep_int_repr=False):
     """ Euclidean distance between two sequences. Supports different lengths.
 
     If the two series differ in length, compare the last element of the shortest series
@@ -55,6 +55,8 @@ def distance(s1, s2, inner_dist=innerdistance.default, use_ndim=False):
     :param s2: Sequence of numbers
     :param inner_dist: Inner distance function between two values
     :param use_ndim: Use n-dimensional methods
+    :param keep_int_repr: Keep the internal representation of the number (e.g. the sum of
+        squared differences) instead of applying the final transformation (e.g. the square root).
     :return: Euclidean distance
     """
     idist_fn, result_fn, _inner_val = innerdistance.inner_dist_fns(inner_dist=inner_dist, use_ndim=use_ndim)
@@ -72,6 +74,8 @@ def distance(s1, s2, inner_dist=innerdistance.default, use_ndim=False):
         v1 = s1[n-1]
         for v2 in s2[n:]:
             ub += idist_fn(v1, v2)  # (v1 - v2)**2
+    if keep_int_repr:
+        return ub
     return result_fn(ub)  # math.sqrt(ub)
 
 
